@@ -318,6 +318,42 @@ def validate(tfs, sc):
     return vlib.validate_traces(tfs, sc, module="TracePump.tla", cfg="TracePump.cfg", timeout=1200)
 
 
+def run_fallback(tier, seed, sc, rep, pid="C15"):
+    """C15, splice(2) missing: the pump's read/write fallback relays the same stream with the same
+    reports.  Random sessions in read/write mode (the harness answers splice with ENOSYS), judged by
+    MonPump; adds to the caller's report."""
+    exe, _proj = build("plain")
+    exe = shutil.copy2(exe, sc.path("bin15", "ivh_pump"))
+    scripts = [x for x in random_scripts(seed + 1009, 1600 if tier == "quick" else 20000) if x.split("\n", 1)[0].split()[2] == "mode=rw"]
+    idx = {script_id(x): x for x in scripts}
+    tfs = run_scripts(exe, scripts, sc, "fb")
+    verdicts, nev = validate(tfs, sc)
+    if len(verdicts) != len(scripts):
+        raise vlib.MachineryError("%d pump scripts but %d verdicts" % (len(scripts), len(verdicts)))
+    bad = collections.OrderedDict()
+    seen = collections.Counter()
+    for v in verdicts:
+        for t in v["seen"]:
+            seen[t] += 1
+        rules = [r for r in v["viols"] if r.startswith("C17:")]
+        if rules:
+            bad[v["id"]] = rules
+    pick = list(bad)[:12]
+    if pick:
+        tf2 = run_scripts(exe, [idx[x] for x in pick], sc, "fbconfirm")
+        v2, _ = validate(tf2, sc)
+        again = {v["id"]: set(v["viols"]) for v in v2}
+        for sid in pick:
+            for r in bad[sid]:
+                if r in again.get(sid, ()):
+                    rep.violation("C15:fallback-splice/" + r, save_replay_text(pid, idx[sid]),
+                                  "pump script %s; %d scripts violate in this run" % (sid, len(bad)))
+    if not seen["C17:stream"]:
+        raise vlib.MachineryError("pump fallback run vacuous")
+    rep.add(pump_fallback_scripts=len(scripts), pump_fallback_events=nev)
+    return len(scripts), nev
+
+
 def run(pid, tier, seed, replay=None):
     rep = vlib.Report(pid, tier, seed)
     exe, proj = build("plain")
